@@ -196,3 +196,127 @@ func (fr *Frame) allocCheck(st *State, in ssa.Instruction, n *Term) {
 		fc.oblige(st, "alloc", fr.path, Le(n, b), fr.pos(in), "allocation size proportional to the input: "+c.Text)
 	}
 }
+
+// ---------------------------------------------------------------------------------------------
+// Interference at re-acquisition. The functions are read sequentially, which is sound for data guarded by a lock
+// only while the lock is held: once a call has RELEASED a lock, other goroutines may change everything that lock
+// guards before the call takes the lock again. So: `relsd` is the set of locks this call has released so far
+// (empty at entry - up to its first acquisition a call cannot have looked at guarded data, so the entry state
+// stands for the state at that acquisition); when Lock / RLock is applied to `&x.<lock>` and that lock is in
+// `relsd`, every field declared `guarded (*T).f by <lock>` of x gets an arbitrary value (for a map, with `deep`,
+// arbitrary contents; inner maps read out of it afterwards are arbitrary too). A decision taken under one critical
+// section and acted upon in a later one (check-then-act across a release) therefore does not verify against a
+// contract that speaks about the state at the acquisition. Not modelled: interference while a CALLEE waits for the
+// lock (the callee's contract speaks for the callee), lock invariants (the havoc is unconstrained).
+// ---------------------------------------------------------------------------------------------
+
+func (fc *FnCtx) relsdInit() *Term {
+	if g, ok := fc.initGhosts["relsd"]; ok {
+		return g
+	}
+	g := fc.sc.Fresh("g0_relsd", ArrSort(SPtr, SBool))
+	fc.initGhosts["relsd"] = g
+	fc.sc.Assert(mk(SBool, fmt.Sprintf("(forall ((p!q Ptr)) (! (not (select %s p!q)) :pattern ((select %s p!q))))", g.S, g.S)))
+	return g
+}
+
+func (fr *Frame) noteReleased(site ssa.Instruction, p *Term, st *State) {
+	fc := fr.fc
+	if len(fc.eng.guardDecls()) == 0 {
+		return
+	}
+	r := fc.ghost(st, "relsd", ArrSort(SPtr, SBool))
+	st.ghosts["relsd"] = fc.sc.Define("relsd", Store(r, p, TTrue))
+	top := fr
+	for top.parent != nil {
+		top = top.parent
+	}
+	if top.spec != nil {
+		for _, c := range top.spec.ClausesOf("lockinv") {
+			ev := top.evalCtx(st, top.entry)
+			ev.at = nil
+			fc.oblige(st, "lockinv", fr.path, top.safeEvalBool(ev, c), fr.pos(site), "lock invariant holds when the lock is released: "+c.Text)
+		}
+	}
+}
+
+func (fr *Frame) interfere(site ssa.Instruction, p *Term, st *State) {
+	fc := fr.fc
+	if len(fc.eng.guardDecls()) == 0 {
+		return
+	}
+	ci, ok := site.(ssa.CallInstruction)
+	if !ok || len(ci.Common().Args) == 0 {
+		return
+	}
+	fa, ok := ci.Common().Args[0].(*ssa.FieldAddr)
+	if !ok {
+		return
+	}
+	pt, ok := fa.X.Type().Underlying().(*types.Pointer)
+	if !ok {
+		return
+	}
+	named, ok := types.Unalias(pt.Elem()).(*types.Named)
+	if !ok {
+		return
+	}
+	stt, ok := named.Underlying().(*types.Struct)
+	if !ok {
+		return
+	}
+	tn := named.Obj().Pkg().Path() + "." + named.Obj().Name()
+	lockName := stt.Field(fa.Field).Name()
+	base, ok := fr.env[fa.X]
+	if !ok {
+		return
+	}
+	cond := Select(fc.ghost(st, "relsd", ArrSort(SPtr, SBool)), p)
+	for _, g := range fc.eng.guardDecls() {
+		if g.atomic || g.typeName != tn || g.lock != lockName {
+			continue
+		}
+		fi := fieldIndex(stt, g.field)
+		if fi < 0 {
+			continue
+		}
+		ft := stt.Field(fi).Type()
+		addr := MkPtr(PObj(base.T), Add(PSlot(base.T), IntLit(fc.eng.ti.FieldOffset(stt, fi))))
+		fc.note("interference: fields guarded by " + tn + "." + lockName + " are arbitrary when the call re-acquires the lock after releasing it")
+		// unconditional havoc on a copy, then choose per heap
+		before := st.clone()
+		if mt, isMap := ft.Underlying().(*types.Map); isMap && g.deep {
+			m := fc.load(st, addr, ft).T
+			fc.havocMap(st, m, mt)
+			if inner, ok := mt.Elem().Underlying().(*types.Map); ok {
+				_ = inner // inner maps are reached through the (now arbitrary) outer values
+			}
+		} else {
+			nv := fc.freshVal("intf_"+g.field, ft)
+			fc.assume(st, fc.typeFacts(st, nv, ft))
+			fc.store(st, addr, ft, nv)
+		}
+		// lock invariant of the verified function (`lockinv <expr>`): what the guarded data satisfies whenever the lock
+		// is free - assumed of the arbitrary state, obliged at every release (noteReleased)
+		top := fr
+		for top.parent != nil {
+			top = top.parent
+		}
+		if top.spec != nil {
+			for _, c := range top.spec.ClausesOf("lockinv") {
+				ev := top.evalCtx(st, top.entry)
+				ev.at = nil
+				fc.assume(st, Implies(cond, top.safeEvalBool(ev, c)))
+			}
+		}
+		for name, h := range st.heaps {
+			old, had := before.heaps[name]
+			if !had {
+				old = fc.heap(before, name, fc.heapSortOf(name))
+			}
+			if old.S != h.S {
+				st.heaps[name] = fc.sc.Define("H_"+name, Ite(cond, h, old))
+			}
+		}
+	}
+}
